@@ -146,6 +146,8 @@ struct Extractor {
     else if (U->isFunctionType() || U->isFunctionPointerType()) k = "fn";
     else if (U->isVoidType()) k = "v";
     o["k"] = k;
+    o["c"] = C.getAsString(PP);   // canonical spelling of the whole type
+    o["cu"] = U.getAsString(PP);  // canonical unqualified pointee / referee
     if (ref) o["ref"] = true;
     if (rref) o["rref"] = true;
     if (ptr) o["ptr"] = true;
